@@ -1095,6 +1095,7 @@ def s_r10_per_class_tables(schema: Schema, rep: Report):
     ci = schema.aggregate
     n = 0
     stores = {}
+    computed = []
     fns = [x for x in ci.node.body if isinstance(x, ast.FunctionDef)]
     for fn in fns:
         if not fn.args.args:
@@ -1108,6 +1109,12 @@ def s_r10_per_class_tables(schema: Schema, rep: Report):
                 stores.setdefault(x.attr, []).append((fn, x))
             elif isinstance(x, ast.Call) and isinstance(x.func, ast.Name) and x.func.id == "setattr" and len(x.args) == 3 and isinstance(x.args[0], ast.Name) and x.args[0].id == recv and isinstance(x.args[1], ast.Constant):
                 stores.setdefault(str(x.args[1].value), []).append((fn, x))
+            elif isinstance(x, ast.Call) and isinstance(x.func, ast.Name) and x.func.id == "setattr" and len(x.args) == 3 and isinstance(x.args[0], ast.Name) and x.args[0].id == recv and isinstance(x.args[1], ast.Name):
+                # a memo under a COMPUTED name: setattr(cls, slot, ...) read back by getattr(cls, slot) in the same function
+                nm_ = x.args[1].id
+                back = [y for y in ast.walk(fn) if isinstance(y, ast.Call) and isinstance(y.func, ast.Name) and y.func.id in ("getattr", "hasattr") and len(y.args) >= 2 and isinstance(y.args[0], ast.Name) and y.args[0].id == recv and isinstance(y.args[1], ast.Name) and y.args[1].id == nm_]
+                if back:
+                    computed.append((fn, x, back[0]))
     for attr, sts in sorted(stores.items()):
         n += 1
         bad = None
@@ -1122,6 +1129,9 @@ def s_r10_per_class_tables(schema: Schema, rep: Report):
                     bad = bad or (fn, x, ast.unparse(x))
         fn0, st0 = sts[0]
         rep.check("S-R10", f"Aggregate.{fn0.name}:cls.{attr}", bad is None, f"{fn0.name}() stores cls.{attr} and {bad[0].name}() reads it back as {bad[2][:40]}: the lookup finds the value a BASE class stored, so a subclass used after its base gets the base's table (children the subclass adds are skipped as unknown, not written, not reachable by flat access)" if bad else "stored per class and not read through inheritance", f"{ci.mod.relpath}:{st0.lineno}")
+    for fn_, st_, rd_ in computed:
+        n += 1
+        rep.check("S-R10", f"Aggregate.{fn_.name}:cls.<{ast.unparse(st_.args[1])}>", False, f"{fn_.name}() stores setattr(cls, {ast.unparse(st_.args[1])}, ...) and reads it back with {ast.unparse(rd_)[:40]}: the lookup follows the MRO, so a subclass used after its base is answered with the BASE's table (children and constraints the subclass adds are unknown to the reader and the constructor)", f"{ci.mod.relpath}:{st_.lineno}")
     if n == 0:
         rep.check("S-R10", "Aggregate:no-class-level-memo", True, "no classmethod of Aggregate assigns an attribute of the class", "")
 
